@@ -131,6 +131,7 @@ package core
 //@   ensures err == nil && rules.IsAmsterdam ==> poolInvA(st.gp)
 //@   ensures err == nil && rules.IsAmsterdam ==> st.gp.cumulativeUsed == old(st.gp.cumulativeUsed) + gasUsed
 //@   ensures err == nil && !rules.IsAmsterdam ==> st.gp.cumulativeUsed == old(st.gp.cumulativeUsed) + gasUsed && st.gp.remaining == old(st.gp.remaining) + (st.msg.GasLimit - gasUsed)
+//@   mutates
 //@   atcall ChargeGasLegacy#1 requires arg2 + arg3 == st.msg.GasLimit
 //@   atcall ChargeGasAmsterdam#1 requires arg4 == gasUsed && arg3 <= st.msg.GasLimit && arg2 <= st.msg.GasLimit
 //@   modifies *st.gp
